@@ -252,7 +252,8 @@ func (this *DefaultOutputBitStream) Close() error {
 		this.availBits += 8
 	}
 
-	this.written -= int64(this.availBits - 64) // can be negative
+	adjustment := int64(this.availBits - 64) // can be negative
+	this.written -= adjustment
 	this.availBits = 64
 
 	pendingBytes := this.position
@@ -260,6 +261,7 @@ func (this *DefaultOutputBitStream) Close() error {
 	if err := this.flush(); err != nil {
 		if this.position == pendingBytes {
 			// Revert fields to allow subsequent attempts in case of transient failure
+			this.written += adjustment
 			this.availBits = savedBitIndex
 			this.position = savedPosition
 			this.current = savedCurrent
